@@ -45,6 +45,7 @@ type FnVC struct {
 	top        *Frame
 	obs        []Observable
 	instName   string
+	lockOnly   bool
 	coveredCallsites map[string]bool
 	modSet     []modTarget
 	modGlobals []string
